@@ -84,10 +84,16 @@ struct Monitor {
         if(set.empty()) broken = true;
         return !broken;
     }
-    std::string canon() const
+    // shift: tags are rendered relative to it (rotation symmetry of the tag alphabet, Part B)
+    std::string canon(int shift = 0) const
     {
-        std::string s = "w" + std::to_string(wop) + "r" + std::to_string(rop) + "{";
-        for(auto &c : set) { for(uint8_t m : c.q) s += (char)('A' + m); s += ":" + std::to_string(c.cursor) + (c.wlin ? "W" : "") + (c.rlin ? "R" + std::to_string(c.rres) : "") + ","; }
+        auto rel = [&](int id) { return id < 0 ? id : (id / 4) * 4 + (((id % 4) - shift) & 3); };
+        bool res_is_id = rop == R_READ || rop == R_READ_LA;
+        std::string s = "w" + std::to_string(rel(wop)) + "r" + std::to_string(rop) + "{";
+        std::vector<std::string> items;
+        for(auto &c : set) { std::string t; for(uint8_t m : c.q) t += (char)('A' + rel(m)); t += ":" + std::to_string(c.cursor) + (c.wlin ? "W" : "") + (c.rlin ? "R" + std::to_string(res_is_id ? rel(c.rres) : c.rres) : ""); items.push_back(t); }
+        std::sort(items.begin(), items.end());
+        for(auto &t : items) s += t + ",";
         return s + "}";
     }
     std::string describe() const
@@ -113,6 +119,12 @@ struct Ctx {
     std::vector<long> obs[2];        // values observed by the sync points of the current op of each fiber
     int points[2] = {0, 0};          // sync points passed in the current op
     uint64_t sync_points = 0;
+    // reduced granularity (Part B): only accesses that can interfere with the other thread are scheduling
+    // points - loads of an index the other thread writes, and all index stores. Loads of an index that only
+    // the loading thread writes commute with every step of the other thread, and the ring data accesses
+    // (memcpy, length scan) are either ordered by happens-before (then their position between the index
+    // operations cannot be observed) or reported by the race detector; both are still *checked*.
+    bool reduced = false;
 
     Ctx() {}
     ~Ctx() { delete tl; }
@@ -166,9 +178,9 @@ long hook_load(const void *, const long *val, int order)
     Ctx *c = G;
     if(!c || !c->S.in_fiber()) return *val;
     int f = c->S.cur;
-    c->S.yield();
-    ++c->sync_points; ++c->points[f];
     int vi = c->var_index(val);
+    bool own = (vi == 0 && f == 0) || (vi > 0 && f == 1);
+    if(!(c->reduced && own)) { c->S.yield(); ++c->sync_points; ++c->points[f]; }
     if(vi >= 0 && order != 0 /*relaxed*/ && order != 3 /*release makes no sense for a load*/) { for(int k = 0; k < 2; ++k) c->vc[f][k] = std::max(c->vc[f][k], c->rel[vi][k]); }
     long x = *val;
     c->obs[f].push_back(x);
@@ -195,8 +207,7 @@ void *hook_memcpy(void *dst, const void *src, size_t n)
     Ctx *c = G;
     if(c && c->S.in_fiber()) {
         int f = c->S.cur;
-        c->S.yield();
-        ++c->sync_points; ++c->points[f];
+        if(!c->reduced) { c->S.yield(); ++c->sync_points; ++c->points[f]; }
         const char *d = (const char *)dst, *s = (const char *)src;
         if(d >= c->v.ring && d < c->v.ring + c->v.size) ring_access(*c, f, (size_t)(d - c->v.ring), n, true, "ring_write-memcpy");
         if(s >= c->v.ring && s < c->v.ring + c->v.size) ring_access(*c, f, (size_t)(s - c->v.ring), n, false, "ring_read-memcpy");
@@ -213,8 +224,7 @@ size_t hook_ring_length(ring_t *r)
     Ctx *c = G;
     if(c && c->S.in_fiber()) {
         int f = c->S.cur;
-        c->S.yield();
-        ++c->sync_points; ++c->points[f];
+        if(!c->reduced) { c->S.yield(); ++c->sync_points; ++c->points[f]; }
         for(int k = 0; k < 2; ++k) if(r[k].data && r[k].len) ring_access(*c, f, (size_t)(r[k].data - c->v.ring), r[k].len, false, "length-scan");
     }
     size_t len = rtosc_message_ring_length(r);
@@ -421,7 +431,7 @@ static void explore(const Instance &in, std::vector<uint8_t> prefix, int bound, 
 struct BRing { size_t maxmsg, nmsgs; };
 static BRing g_bring = {16, 2};
 enum BOp { B_W_SMALL = 0, B_W_BIG, B_W_OVER, B_W_STEP, B_R_READ, B_R_LA, B_R_STEP, B_END };
-static const char *BOPN[B_END] = {"W:start write12", "W:start writeMaxMsg", "W:start write>MaxMsg", "W:step", "R:start if(hasNext)read", "R:start if(hasNextLookahead)read_lookahead", "R:step"};
+static const char *BOPN[B_END] = {"W:start write8", "W:start writeMaxMsg", "W:start write>MaxMsg", "W:step", "R:start if(hasNext)read", "R:start if(hasNextLookahead)read_lookahead", "R:step"};
 
 struct SysB {
     struct Inst {
@@ -437,9 +447,10 @@ struct SysB {
             c = new Ctx;
             G = c;
             c->make(g_bring.maxmsg, g_bring.nmsgs);
-            // message table: 4 tags x {small, big}
-            for(int t = 0; t < 4; ++t) c->mon.table.push_back(msg_int("/a", 1000 + t));
-            for(int t = 0; t < 4; ++t) c->mon.table.push_back(msg_sized(g_bring.maxmsg, (char)('0' + t)));
+            c->reduced = true;
+            // message table: 4 tags x {8-byte, MaxMsg-byte, MaxMsg+4-byte}
+            for(int t = 0; t < 4; ++t) { char a[3] = {'/', (char)('0' + t), 0}; c->mon.table.push_back(mk_msg(a, "", nullptr)); }
+            for(int t = 0; t < 4; ++t) c->mon.table.push_back(g_bring.maxmsg >= 12 ? msg_sized(g_bring.maxmsg, (char)('0' + t)) : std::string("unused") + (char)('0' + t));
             for(int t = 0; t < 4; ++t) c->mon.table.push_back(msg_sized(g_bring.maxmsg + 4, (char)('0' + t)));
             Inst *self = this;
             c->S.spawn(0, [self]() {
@@ -450,7 +461,7 @@ struct SysB {
                     c.obs[0].clear(); c.points[0] = 0;
                     int id = (kind == B_W_SMALL ? 0 : kind == B_W_BIG ? 4 : 8) + tag;
                     c.mon.invoke_w(id);
-                    if(kind == B_W_SMALL) c.tl->write("/a", "i", 1000 + tag);
+                    if(kind == B_W_SMALL) { char a[3] = {'/', (char)('0' + tag), 0}; c.tl->write(a, ""); }
                     else c.tl->write("/x", "s", c.mon.table[id].c_str() + 8);
                     if(!c.mon.respond_w()) c.fail("not-linearizable|write", "no linearization explains the completed write");
                     self->wtag = (tag + 1) % 4;
@@ -484,7 +495,8 @@ struct SysB {
     static void ops(const Inst &I, std::vector<int> &out)
     {
         if(I.diverged) return;
-        if(I.widle) { out.push_back(B_W_SMALL); out.push_back(B_W_BIG); out.push_back(B_W_OVER); } else out.push_back(B_W_STEP);
+        // (writes larger than MaxMsg are covered by Part A; they only add a no-effect writer operation here)
+        if(I.widle) { out.push_back(B_W_SMALL); if(g_bring.maxmsg >= 12) out.push_back(B_W_BIG); } else out.push_back(B_W_STEP);
         if(I.ridle) { out.push_back(B_R_READ); out.push_back(B_R_LA); } else out.push_back(B_R_STEP);
     }
     static bool probe(int) { return false; }
@@ -510,14 +522,23 @@ struct SysB {
         if(I.diverged) return "DIVERGED:" + c.fail_sig;
         size_t w = (size_t)*c.v.write, r = (size_t)*c.v.read, la = (size_t)*c.v.lookahead, size = c.v.size;
         std::string s = "w" + std::to_string(w) + " r" + std::to_string(r) + " l" + std::to_string(la) + " live:";
-        for(size_t k = r; k != w; k = (k + 1) % size) { char b[4]; snprintf(b, sizeof b, "%02x", (unsigned char)c.v.ring[k]); s += b; }
+        {   // the live region as a sequence of table messages with tags relative to the writer's next tag
+            // (rotating all tags maps executions to executions); raw bytes if it does not parse
+            std::string bytes; for(size_t k = r; k != w; k = (k + 1) % size) bytes += c.v.ring[k];
+            std::string parsed; size_t p = 0; bool ok = true;
+            while(p < bytes.size() && ok) {
+                ok = false;
+                for(size_t id = 0; id < c.mon.table.size(); ++id) { const std::string &m = c.mon.table[id]; if(bytes.compare(p, m.size(), m) == 0) { parsed += (char)('A' + (id / 4) * 4 + (((id % 4) - I.wtag) & 3)); p += m.size(); ok = true; break; } }
+            }
+            s += ok ? parsed : "raw:" + vp::hex(bytes.data(), bytes.size());
+        }
         // fiber progress: idle, or (operation, values its sync points returned so far)
         s += " W:"; if(I.widle) s += "idle"; else { s += std::to_string(I.wkind_cur) + "@" + std::to_string(c.points[0]) + "("; for(long x : c.obs[0]) s += std::to_string(x) + ","; s += ")"; }
-        s += " tag" + std::to_string(I.wtag);
+        // (absolute tag of the writer is not part of the canon: see the symmetry note above)
         s += " R:"; if(I.ridle) s += "idle"; else { s += std::to_string(I.rkind_cur) + "." + std::to_string(I.rphase) + "@" + std::to_string(c.points[1]) + "("; for(long x : c.obs[1]) s += std::to_string(x) + ","; s += ")"; }
         // happens-before state, relative (only comparisons matter): which release the reader/writer has already seen
         s += " hb:" + std::to_string(c.vc[1][0] >= c.rel[0][0] ? 1 : 0) + std::to_string(c.vc[0][1] >= c.rel[1][1] ? 1 : 0);
-        s += " mon:" + c.mon.canon();
+        s += " mon:" + c.mon.canon(I.wtag);
         // the scratch buffers' content is write-before-read within one operation and not part of the state
         return s;
     }
@@ -529,7 +550,8 @@ int main(int argc, char **argv)
 {
     vp::init(argc, argv, "C06");
     const bool T = vp::thorough();
-    const std::string mode = getenv("VP_C06_PART") ? getenv("VP_C06_PART") : "";
+    std::string mode;
+    for(int i = 1; i + 1 < argc; ++i) if(!strcmp(argv[i], "--part")) mode = argv[i + 1];
 
     // ---- replay of a Part A case: A|16x2|off8|pre1|w03|r01|sched=0101..
     if(vp::replaying() && vp::ctx().replay.compare(0, 2, "A|") == 0) {
@@ -548,8 +570,9 @@ int main(int argc, char **argv)
     // ---- Part B (runs in shard 0 only; the bfs engine forks its own workers) -------------------------
     const bool is_bfs_shard = vp::ctx().shard == 0;
     if(is_bfs_shard && mode != "A") {
-        std::vector<BRing> rings = {{16, 2}};
-        if(T) { rings.push_back({16, 3}); rings.push_back({24, 2}); }
+        vp::bound("partB_granularity", "scheduling points: every load of an index the other thread writes and every index store; own-index loads, ring memcpy and length scan are executed inside the step and still checked by the race detector and the region invariant (argument in the source)");
+        std::vector<BRing> rings = {{8, 2}};
+        if(T) { rings.push_back({8, 3}); rings.push_back({12, 2}); rings.push_back({8, 4}); rings.push_back({12, 3}); rings.push_back({16, 2}); }
         std::string done;
         for(auto &rg : rings) {
             if(vp::replaying() && false) break;
@@ -567,7 +590,7 @@ int main(int argc, char **argv)
             if(vp::replaying()) break;
         }
         vp::bound("partB_rings", done);
-        vp::bound("partB", "looping writer {write12, writeMaxMsg, write>MaxMsg} with tags mod 4 / looping reader {if(hasNext)read, if(hasNextLookahead)read_lookahead}; BFS over every sync-point interleaving to a fixpoint");
+        vp::bound("partB", "looping writer {write8, writeMaxMsg} with tags mod 4 / looping reader {if(hasNext)read, if(hasNextLookahead)read_lookahead}; BFS over every sync-point interleaving to a fixpoint");
         if(vp::replaying()) return vp::finish();
     }
     if(mode == "B") return vp::finish();
